@@ -154,6 +154,17 @@ func mutate(kind, mut string, def, prev []byte) ([]byte, bool) {
 		return out, true
 	case "splice":
 		return append(append([]byte(nil), prev...), def...), true
+	case "nul":
+		if n == 0 {
+			return nil, false
+		}
+		out := append([]byte(nil), def...)
+		out[0] = 0
+		return out, true
+	case "asZ":
+		return []byte("Z"), true
+	case "asB":
+		return []byte("B"), true
 	case "empty":
 		return []byte{}, true
 	case "long":
@@ -209,6 +220,8 @@ func mutate(kind, mut string, def, prev []byte) ([]byte, bool) {
 		v = 0
 	case "one":
 		v = 1
+	case "eight":
+		v = 8
 	case "big":
 		v = 1 << 20
 	case "max":
